@@ -123,4 +123,40 @@ theorem entOp_params (now : Nat) (a b : EntState) (h : EntOp now a b) :
     obtain ⟨_, hv, rfl⟩ := h
     exact Or.inr ⟨p, h', hv, rfl⟩
 
+/-- the only bank operation of the fee unlock is one undelegation escrow → payer -/
+theorem unlockForFees_bank (x x' : EB) (now : Int) (p : Addr) (fees : Coins)
+    (h : EB.unlockForFees x now p fees = .ok x') :
+    x'.bank = x.bank ∨ ∃ amt, x.bank.undelegate now Ment p amt = .ok x'.bank := by
+  simp only [EB.unlockForFees, bind_eq_ok] at h
+  obtain ⟨_, _, h⟩ := h
+  split at h
+  · simp only [bind_eq_ok] at h
+    obtain ⟨b, hb, x1, h1, h2⟩ := h
+    have f1 := decrementLocked_frame _ _ _ _ h1
+    have f2 := incrementSpent_frame _ _ _ _ h2
+    right; exact ⟨fees, by rw [f2.2.2.2.2.2.2.2.2, f1.2.2.2.2.2.2.2.2]; exact hb⟩
+  · split at h
+    · simp only [bind_eq_ok] at h
+      obtain ⟨b, hb, x1, h1, h2⟩ := h
+      have f1 := decrementLocked_frame _ _ _ _ h1
+      have f2 := incrementSpent_frame _ _ _ _ h2
+      right; exact ⟨_, by rw [f2.2.2.2.2.2.2.2.2, f1.2.2.2.2.2.2.2.2]; exact hb⟩
+    · simp only [pure_eq_ok] at h; subst h; exact Or.inl rfl
+
+/-- the bank operations of `MintCoinsAndLock` : mint into escrow, send to the (non-blocked) recipient,
+delegate back into escrow -/
+theorem mintAndLock_bank (x x' : EB) (now : Int) (bl : Addr → Bool) (r : Addr) (c : Coin)
+    (h : EB.mintAndLock x now bl r c = .ok x') :
+    x'.bank = x.bank ∨ (bl r = false ∧ ∃ b1 b2, x.bank.mint Ment [c] = .ok b1 ∧ b1.sendCoins now Ment r [c] = .ok b2 ∧
+      b2.delegate now r Ment [c] = .ok x'.bank) := by
+  unfold EB.mintAndLock at h
+  split at h
+  · cases h; exact Or.inl rfl
+  · simp only [bind_eq_ok, require_eq_ok] at h
+    obtain ⟨_, _, b1, h1, _, hbl, b2, h2, b3, h3, hinc⟩ := h
+    have f := incrementLocked_frame _ _ _ _ hinc
+    right
+    refine ⟨by simpa using hbl, b1, b2, h1, h2, ?_⟩
+    rw [f.2.2.2.2.2.2.2.2]; exact h3
+
 end Mainchain
